@@ -13,7 +13,7 @@ MONITORS = ('M2', 'M6')
 ANCHORS = ['phylib.io.model:TemplateModel.get_merge_map', 'phylib.io.model:TemplateModel.cluster_waveforms',
            'phylib.io.model:TemplateModel.get_cluster_mean_waveforms', 'phylib.io.model:TemplateModel._load_data',
            'phylib.io.model:TemplateModel.get_template_counts']
-RULE = ('Each case = a generated dense dataset (3-20 channels, 1-3 shanks far apart or interleaved, with/without whitening, id dtypes int32/uint16/uint32/int64, cluster ids occasionally jumping by 300 or 14000) whose '
+RULE = ('Each case = a generated dense dataset (3-20 channels, 1-3 shanks far apart or interleaved, with/without whitening, optional amplitude_threshold / n_closest_channels entries in params.py, id dtypes int32/uint16/uint32/int64, cluster ids occasionally jumping by 300 or 14000) whose '
         'spike_clusters come from a random history of 0-6 merges / splits / reassignments (to new, existing '
         'and far-away ids) applied to clusters = templates, producing empty ids, one-spike clusters and count '
         'ties; loaded with the real load_model. Judged: merge_map for every id 0..max, nan_idx, n_clusters, '
@@ -42,7 +42,8 @@ def run_shard(desc, ctx):
 
 
 def chans(spec, W):
-    best, req, allowed = rt.dense_channel_sets(spec, W, 0, 12)
+    best, req, allowed = rt.dense_channel_sets(spec, W, spec.notes.get('amplitude_threshold') or 0,
+                                               spec.notes.get('n_closest_channels') or 12)
     return sorted(allowed)
 
 
@@ -61,6 +62,11 @@ def run_case(case, ctx):
                 dtype_templates=['float32', 'float32', 'float64'][int(rng.integers(0, 3))],
                 dtype_feat=['float32', 'float64'][int(rng.integers(0, 2))])
     spec = random_spec(rng, **opts)
+    if rng.random() < 0.3:
+        spec.notes['amplitude_threshold'] = [0.5, 0.3][int(rng.integers(0, 2))]     # params.py options
+    if rng.random() < 0.2:
+        spec.notes['n_closest_channels'] = 4
+    opts['config'] = {k: spec.notes.get(k) for k in ('amplitude_threshold', 'n_closest_channels')}
     curated = spec.curated
     st, sc = spec.spike_templates.astype(np.int64), spec.clusters.astype(np.int64)
     mm, nan_idx = rt.merge_map(spec)
